@@ -34,6 +34,7 @@ FIXED = [
     ("C16", "F48", "an input failure met by a completion callback after the call was aborted is dropped", "output generator closed (or a task failed) while a completion callback was inside a slow input iterator, on a backend that cannot join its callback threads at abort: the iterator then raised, dispatch_one_batch registered the error tracker in the job queue of the finished call, and the NEXT call on the same Parallel object raised that stale error (ordered modes)"),
     ("C12", "F51", "MemorizedFunc.call checks the recorded source before storing the forced result", "forced execution MemorizedFunc.call(a) stored its value without comparing or recording the function's source: (a) call() in a fresh cache directory left an entry without func_code.py, after an edit of the function a new process's check_call_in_cache wrote the NEW source and its ordinary call then returned the OLD value; (b) call() of edited code stored the new value under the old source record, a process with the old text then returned the new value"),
     ("C19", "F52", "mmap_mode=None disables the automatic memmapping of large arguments", "Parallel(n_jobs=2, max_nbytes=10, mmap_mode=None) with an array above max_nbytes: the array was still dumped to a temp file and the worker failed in load_temporary_memmap (ndarray has no attribute filename): BrokenProcessPool on loky, a hang on multiprocessing; None is documented as 'disable memmapping'"),
+    ("C06", "F53", "the cached wrappers take self (and Memory.eval its function) positionally only", "a cached function with a parameter named 'self' called with it by keyword (f(self=1, x=2)): __call__, call, call_and_shelve and check_call_in_cache of MemorizedFunc / NotMemorizedFunc / the async variants raised TypeError('got multiple values for argument self') although the plain function accepts the call; the same for Memory.eval(g, func=3) and a parameter named 'func'"),
     ("C14", "F50", "format_signature takes the function positionally only", "a cached function with a parameter named 'func', called with it by keyword, on a damaged output.pkl: the recovery path of MemorizedFunc._cached_call called format_signature(self.func, *args, **kwargs), whose own first parameter is named func: TypeError('got multiple values for argument func') instead of a warning and a recomputation"),
     ("C19", "F28", "a contiguous view of a memmap is re-mapped in the workers with the memory order of the view", "transposed / F-ordered contiguous memmap views presented wrong values to process workers"),
 ]
